@@ -31,12 +31,14 @@ fn seqs<C: CellType>(n: usize, seed: u64, w: &str, cases: &mut usize, first: &mu
         let mut trace: Vec<String> = Vec::new();
         let len = 1 + r.below(7) as usize;
         let mut total_span: isize = 0;
+        let seq_no = *cases;
         for _ in 0..len {
             let o = OFFS[r.below(15) as usize];
             // keep the allocation below ~40 M cells
             if total_span + o.abs() > 12 * M {
                 break;
             }
+            println!("N10CASE {} sequence starting at check {}: {:?} then an operation at offset {}", w, seq_no, trace, o);
             match r.below(5) {
                 0 => {
                     let v = C::from_u8(1 + r.below(250) as u8);
